@@ -166,6 +166,19 @@ Fixpoint core_expr (e : expr) : bool :=
   | ECall _ f args _ =>
       core_expr f && forallb (fun a => match a with APositional y | ANamed _ y => core_expr y end) args
   | EError _ x | EImport _ x | EImportStr _ x | EImportBin _ x => core_expr x
+  | ELocal _ binds body =>
+      negb (match binds with [] => true | _ => false end) &&
+      forallb (fun b => match b with
+                        | MkBind _ ps v =>
+                            match ps with
+                            | Some (l, _) => forallb (fun p => match p with MkParam _ d =>
+                                               match d with Some y => core_expr y | None => true end end) l
+                            | None => true
+                            end && core_expr v
+                        end) binds && core_expr body
+  | EFunc _ params body =>
+      forallb (fun p => match p with MkParam _ d => match d with Some y => core_expr y | None => true end end) params &&
+      core_expr body
   | EIf _ c t o => core_expr c && core_expr t && match o with Some x => core_expr x | None => true end
   | EAssert _ (MkAssert _ c m) body =>
       core_expr c && match m with Some x => core_expr x | None => true end && core_expr body
@@ -339,6 +352,16 @@ Lemma app_r_not_nil {A} (l1 l2 : list A) : l2 <> [] -> l1 ++ l2 <> [].
 Proof. destruct l1; [auto|discriminate]. Qed.
 #[export] Hint Resolve app_r_not_nil : rt.
 
+Lemma run_eat_miss_app k add l t c r : l = c :: r -> is_simple k c = false ->
+  run (eat_simple k add) (l ++ t) None (l ++ t).
+Proof. intros -> H. apply run_eat_miss; exact H. Qed.
+
+Ltac norm_app := repeat (progress (rewrite <- ?app_assoc; cbn [app])).
+
+Lemma flat_len {A} (f : A -> list token) (l : list A) :
+  (List.length l <= List.length (flat_map (fun y => comma ++ f y) l))%nat.
+Proof. induction l as [|x l IH]; cbn [flat_map List.length]; [lia|]. rewrite !app_length. cbn [comma List.length]. lia. Qed.
+
 Section Suffix.
   Variable pexpr : P expr.
   Variable L : nat.
@@ -467,6 +490,176 @@ Section Suffix.
         eapply run_bind; [apply run_pexpr; [exact Hc|exact Hw|unfold alen in Hl; cbn [print_arg List.length] in Hl; lia|exact Hs|exact He]|apply run_ret].
   Qed.
 
+  (* params and binds *)
+  Definition pcore (p : param) : bool := match p with MkParam _ d => match d with Some y => core_expr y | None => true end end.
+  Definition param_ok (p : param) : Prop :=
+    pcore p = true /\ wp_param p = true /\ (List.length (print_param p) < L)%nat.
+
+  Lemma run_param_body name d fo r acc : param_ok (MkParam name d) -> stopper fo = true -> is_simple KElse fo = false ->
+    is_simple SEq fo = false ->
+    run (nm <- expect_ident true ;; c <- eat_simple SEq true ;; dv <- opt_expr pexpr c ;; ret (acc ++ [MkParam nm dv]))
+        (print_param (MkParam name d) ++ fo :: r) (acc ++ [strip_param (MkParam name d)]) (fo :: r).
+  Proof.
+    intros (Hc & Hw & Hl) Hs He Hq. cbn [print_param pcore wp_param strip_param app] in *.
+    eapply run_bind; [unfold id_tok, tk; apply run_expect_ident_hit; auto with rt|].
+    destruct d as [y|]; cbn [opt_all option_map app] in *.
+    - eapply run_bind; [apply run_eat_hit; [reflexivity|auto with rt]|].
+      cbn [opt_expr]. eapply run_bind; [|apply run_ret].
+      eapply run_bind; [apply run_pexpr; [exact Hc|exact Hw|cbn [List.length] in Hl; lia|exact Hs|exact He]|apply run_ret].
+    - eapply run_bind; [apply run_eat_miss; exact Hq|].
+      cbn [opt_expr]. eapply run_bind; [apply run_ret|apply run_ret].
+  Qed.
+
+  Lemma run_params_loop : forall more p0 acc fuel rest,
+    (List.length more < fuel)%nat -> Forall param_ok (p0 :: more) -> rest <> [] ->
+    run (params_loop pexpr fuel acc)
+        (print_param p0 ++ flat_map (fun y => comma ++ print_param y) more ++ sim SRightParen :: rest)
+        (acc ++ map strip_param (p0 :: more), sp0) rest.
+  Proof.
+    induction more as [|p1 more IH]; intros p0 acc fuel rest Hf Hall Hr;
+      destruct fuel as [|f]; try (cbn in Hf; lia); cbn [params_loop flat_map];
+      inversion Hall as [|? ? Hok Hall']; subst; destruct p0 as [name d].
+    - cbn [app].
+      pose proof (run_param_body name d (sim SRightParen) rest acc Hok eq_refl eq_refl eq_refl) as Hb.
+      unfold bindP at 1 2 3 in Hb.
+      intros s Es. destruct (Hb s Es) as (s1 & E1 & T1). clear Hb.
+      unfold bindP at 1. destruct (expect_ident true s) as [[nm s0]| | |] eqn:Ei; try discriminate.
+      unfold bindP at 1. destruct (eat_simple SEq true s0) as [[c s2]| | |] eqn:Ec; try discriminate.
+      unfold bindP at 1. destruct (opt_expr pexpr c s2) as [[dv s3]| | |] eqn:Eo; try discriminate.
+      cbn in E1. injection E1 as Eacc Es3. subst s3.
+      cbv zeta. rewrite Eacc.
+      assert (Hrun : run (IFLET e <== eat_simple SRightParen true THEN ret (acc ++ [strip_param (MkParam name d)], e) ELSE
+                          IFLET _ <== eat_simple SComma true THEN
+                            (IFLET e <== eat_simple SRightParen true THEN ret (acc ++ [strip_param (MkParam name d)], e)
+                             ELSE params_loop pexpr f (acc ++ [strip_param (MkParam name d)]))
+                          ELSE report_expected) (sim SRightParen :: rest) (acc ++ [strip_param (MkParam name d)], sp0) rest).
+      { eapply run_orelse_hit; [apply run_eat_hit; [reflexivity|exact Hr]|apply run_ret]. }
+      exact (Hrun s1 T1).
+    - unfold comma at 1. rewrite <- !app_assoc. cbn [app].
+      pose proof (run_param_body name d (sim SComma)
+                    (print_param p1 ++ flat_map (fun y => comma ++ print_param y) more ++ sim SRightParen :: rest)
+                    acc Hok eq_refl eq_refl eq_refl) as Hb.
+      unfold bindP at 1 2 3 in Hb.
+      intros s Es. destruct (Hb s Es) as (s1 & E1 & T1). clear Hb.
+      unfold bindP at 1. destruct (expect_ident true s) as [[nm s0]| | |] eqn:Ei; try discriminate.
+      unfold bindP at 1. destruct (eat_simple SEq true s0) as [[c s2]| | |] eqn:Ec; try discriminate.
+      unfold bindP at 1. destruct (opt_expr pexpr c s2) as [[dv s3]| | |] eqn:Eo; try discriminate.
+      cbn in E1. injection E1 as Eacc Es3. subst s3.
+      cbv zeta. rewrite Eacc.
+      inversion Hall' as [|? ? Hok1 _]; subst. destruct p1 as [name1 d1].
+      assert (Hrun : run (IFLET e <== eat_simple SRightParen true THEN ret (acc ++ [strip_param (MkParam name d)], e) ELSE
+                          IFLET _ <== eat_simple SComma true THEN
+                            (IFLET e <== eat_simple SRightParen true THEN ret (acc ++ [strip_param (MkParam name d)], e)
+                             ELSE params_loop pexpr f (acc ++ [strip_param (MkParam name d)]))
+                          ELSE report_expected)
+                         (sim SComma :: print_param (MkParam name1 d1) ++ flat_map (fun y => comma ++ print_param y) more ++ sim SRightParen :: rest)
+                         (acc ++ map strip_param (MkParam name d :: MkParam name1 d1 :: more), sp0) rest).
+      { eapply run_orelse_miss; [apply run_eat_miss; reflexivity|].
+        eapply run_orelse_hit; [apply run_eat_hit; [reflexivity|cbn [print_param app]; discriminate]|].
+        eapply run_orelse_miss; [eapply (run_eat_miss_app _ _ _ _ (id_tok name1)); [reflexivity|reflexivity]|].
+        replace (acc ++ map strip_param (MkParam name d :: MkParam name1 d1 :: more))
+          with ((acc ++ [strip_param (MkParam name d)]) ++ map strip_param (MkParam name1 d1 :: more))
+          by (rewrite <- app_assoc; reflexivity).
+        apply IH; [cbn in Hf; lia|exact Hall'|exact Hr]. }
+      exact (Hrun s1 T1).
+  Qed.
+
+  Lemma sep_by_len {A} (f : A -> list token) l x : In x l ->
+    (List.length (f x) <= List.length (sep_by comma f l))%nat.
+  Proof.
+    unfold sep_by. destruct l as [|a0 more]; [intros []|]. rewrite app_length. intros [->|Hin]; [lia|].
+    induction more as [|a1 more IHm]; [destruct Hin|]. cbn [flat_map]. rewrite !app_length.
+    destruct Hin as [->|Hin]; [lia|]. specialize (IHm Hin). lia.
+  Qed.
+
+  Lemma sep_by_count {A} (f : A -> list token) l : (forall x, In x l -> f x <> []) ->
+    (List.length l <= List.length (sep_by comma f l))%nat.
+  Proof.
+    unfold sep_by. destruct l as [|a0 more]; [cbn; lia|]. intros Hne. rewrite app_length.
+    pose proof (flat_len f more). specialize (Hne a0 (or_introl eq_refl)).
+    destruct (f a0); [congruence|]. cbn [List.length]. lia.
+  Qed.
+
+  Lemma run_params lf' params rest : (List.length params <= lf')%nat -> Forall param_ok params -> rest <> [] ->
+    run (parse_params pexpr lf') (sep_by comma print_param params ++ sim SRightParen :: rest)
+        (map strip_param params, sp0) rest.
+  Proof.
+    intros Hlf Hall Hr. unfold parse_params. apply run_call. unfold sep_by. destruct params as [|p0 more].
+    - cbn [app map]. eapply run_orelse_hit; [apply run_eat_hit; [reflexivity|exact Hr]|apply run_ret].
+    - rewrite <- app_assoc. destruct p0 as [name d].
+      eapply run_orelse_miss; [eapply (run_eat_miss_app _ _ _ _ (id_tok name)); [reflexivity|reflexivity]|].
+      apply (run_params_loop more (MkParam name d) []); [cbn in Hlf; lia|exact Hall|exact Hr].
+  Qed.
+
+  Definition bcore (b : bind) : bool :=
+    match b with
+    | MkBind _ ps v => match ps with Some (l, _) => forallb pcore l | None => true end && core_expr v
+    end.
+  Definition bind_ok (b : bind) : Prop :=
+    bcore b = true /\ wp_bind b = true /\ (List.length (print_bind b) < L)%nat.
+
+  Lemma run_bind_ lf' b fo r : bind_ok b -> (List.length (print_bind b) <= lf')%nat ->
+    stopper fo = true -> is_simple KElse fo = false ->
+    run (parse_bind pexpr lf') (print_bind b ++ fo :: r) (strip_bind b) (fo :: r).
+  Proof.
+    intros (Hc & Hw & Hl) Hlf Hs He. destruct b as [name ps v]. cbn [bcore wp_bind print_bind strip_bind] in *.
+    apply andb_true_iff in Hc as [Hcp Hcv]. apply andb_true_iff in Hw as [Hwp Hwv].
+    unfold parse_bind. apply run_call. cbn [app].
+    eapply run_bind; [unfold id_tok, tk; apply run_expect_ident_hit; auto with rt|].
+    destruct ps as [[l psp]|]; norm_app; cbv beta iota in Hl, Hlf; cbn [List.length] in Hl, Hlf;
+      repeat (rewrite app_length in Hl, Hlf; cbn [List.length] in Hl, Hlf).
+    - eapply run_bind; [apply run_eat_hit; [reflexivity|auto with rt]|].
+      assert (Hpl : Forall param_ok l).
+      { apply Forall_forall. intros p0 Hin. rewrite forallb_forall in Hcp, Hwp.
+        split; [apply (Hcp p0 Hin)|]. split; [apply (Hwp p0 Hin)|].
+        pose proof (sep_by_len print_param l p0 Hin). revert Hl. repeat (rewrite app_length; cbn [List.length]). lia. }
+      assert (Hcnt : (List.length l <= lf')%nat).
+      { assert (List.length l <= List.length (sep_by comma print_param l))%nat.
+        { apply sep_by_count. intros [nm dd] _. cbn [print_param]. discriminate. }
+        revert Hlf. cbn [List.length]. repeat (rewrite app_length; cbn [List.length]). lia. }
+      eapply run_bind.
+      + eapply run_bind; [apply (run_params lf' l); [exact Hcnt|exact Hpl|discriminate]|].
+        cbv beta iota. eapply run_bind; [apply run_mk_span0|apply run_ret].
+      + eapply run_bind; [apply run_expect_hit; [reflexivity|auto with rt]|].
+        eapply run_bind; [apply run_pexpr; [exact Hcv|exact Hwv| |exact Hs|exact He]|apply run_ret].
+        revert Hl. cbn [List.length]. repeat (rewrite app_length; cbn [List.length]). lia.
+    - eapply run_bind; [apply run_eat_miss; reflexivity|].
+      eapply run_bind; [apply run_ret|].
+      eapply run_bind; [apply run_expect_hit; [reflexivity|auto with rt]|].
+      eapply run_bind; [apply run_pexpr; [exact Hcv|exact Hwv| |exact Hs|exact He]|apply run_ret].
+      revert Hl. cbn [List.length]. lia.
+  Qed.
+
+  Lemma binds_head more fo r : stopper fo = true -> is_simple KElse fo = false ->
+    exists t0 r0, flat_map (fun b => comma ++ print_bind b) more ++ fo :: r = t0 :: r0 /\
+                  stopper t0 = true /\ is_simple KElse t0 = false.
+  Proof.
+    intros Hs He. destruct more as [|b more]; cbn [flat_map comma app].
+    - eexists; eexists; split; [reflexivity|split; assumption].
+    - eexists; eexists; split; [reflexivity|split; reflexivity].
+  Qed.
+
+  Lemma run_binds_loop lf' : forall more acc fuel fo r, (List.length more < fuel)%nat ->
+    Forall (fun b => bind_ok b /\ (List.length (print_bind b) <= lf')%nat) more ->
+    stopper fo = true -> is_simple KElse fo = false -> is_simple SComma fo = false ->
+    run (binds_loop pexpr lf' fuel acc) (flat_map (fun b => comma ++ print_bind b) more ++ fo :: r)
+        (acc ++ map strip_bind more) (fo :: r).
+  Proof.
+    induction more as [|b more IH]; intros acc fuel fo r Hf Hall Hs He Hc;
+      destruct fuel as [|f]; try (cbn in Hf; lia); cbn [binds_loop flat_map map app].
+    - eapply run_orelse_miss; [apply run_eat_miss; exact Hc|]. rewrite app_nil_r. apply run_ret.
+    - inversion Hall as [|? ? (Hok & Hlb) Hall']; subst.
+      unfold comma at 1. norm_app.
+      eapply run_orelse_hit; [apply run_eat_hit; [reflexivity|auto with rt]|].
+      destruct (binds_head more fo r Hs He) as (t0 & r0 & E0 & Hs0 & He0).
+      rewrite E0.
+      eapply run_bind; [apply (run_bind_ lf' b t0 r0 Hok Hlb Hs0 He0)|].
+      rewrite <- E0.
+      replace (acc ++ strip_bind b :: map strip_bind more) with ((acc ++ [strip_bind b]) ++ map strip_bind more)
+        by (rewrite <- app_assoc; reflexivity).
+      apply IH; [cbn in Hf; lia|exact Hall'|exact Hs|exact He|exact Hc].
+  Qed.
+
   (* comprehension specs *)
   Definition score (c : comp_spec) : bool := match c with CFor _ y | CIf y => core_expr y end.
   Definition spec_ok (c : comp_spec) : Prop :=
@@ -556,14 +749,6 @@ Section Suffix.
   Qed.
 End Suffix.
 
-Lemma run_eat_miss_app k add l t c r : l = c :: r -> is_simple k c = false ->
-  run (eat_simple k add) (l ++ t) None (l ++ t).
-Proof. intros -> H. apply run_eat_miss; exact H. Qed.
-
-Lemma flat_len {A} (f : A -> list token) (l : list A) :
-  (List.length l <= List.length (flat_map (fun y => comma ++ f y) l))%nat.
-Proof. induction l as [|x l IH]; cbn [flat_map List.length]; [lia|]. rewrite !app_length. cbn [comma List.length]. lia. Qed.
-
 Lemma pl_item0_comp pexpr lf f e stk c t specs' t2 (a : expr) t' :
   is_simple SComma c = false ->
   run (maybe_parse_comp_spec pexpr (S lf)) (c :: t) (Some specs') (sim SRightBracket :: t2) -> t2 <> [] ->
@@ -622,8 +807,6 @@ Definition Sform (e : expr) (c m : nat) : Prop :=
     run (suffix_loop pexpr (S lf) (S lf - m) (strip_spans e)) rest R t' ->
     run (pe_loop T pexpr (S lf) f (StParsed R) stk) t' X tf ->
     run (pe_loop T pexpr (S lf) (c + f) StUnary stk) (print_expr e ++ rest) X tf.
-
-Ltac norm_app := repeat (progress (rewrite <- ?app_assoc; cbn [app])).
 
 Lemma app_eq_cons_l {A} (l : list A) c r t : l = c :: r -> l ++ t = c :: (r ++ t).
 Proof. intros ->. reflexivity. Qed.
@@ -931,6 +1114,47 @@ Proof.
   - (* EIndex *) apply (suffix_case n IH); [cbn [esize] in *; lia|exact Hcore|exact Hwp|exact Hk].
   - (* ESlice *) apply (suffix_case n IH); [cbn [esize] in *; lia|exact Hcore|exact Hwp|exact Hk].
   - (* ECall *) apply (suffix_case n IH); [cbn [esize] in *; lia|exact Hcore|exact Hwp|exact Hk].
+  - (* ELocal *)
+    cbn [esize] in Hsz.
+    assert (Hlast : last = true) by (cbn [wpx] in Hwp; destruct last; cbn in Hwp; congruence).
+    subst last. cbn [wpx andb] in Hwp.
+    apply andb_true_iff in Hwp as [Hwp Hwb]. apply andb_true_iff in Hwp as [_ Hwbs].
+    apply andb_true_iff in Hcore as [Hcore Hcb]. apply andb_true_iff in Hcore as [Hne Hcbs].
+    destruct binds as [|b0 more]; [discriminate|]. clear Hne.
+    exists ((10 - k) + 3 + steps_fin k)%nat. split; [len_tac|].
+    apply wrap; [exact Hk|].
+    intros pexpr lf f stk fo r v tf Hp Hlf Hn Hs Hel H.
+    specialize (Hs eq_refl).
+    set (Lb := List.length (print_expr (ELocal sp (b0 :: more) e))) in *.
+    assert (Eprint : print_expr (ELocal sp (b0 :: more) e) =
+              sim KLocal :: (print_bind b0 ++ flat_map (fun b => comma ++ print_bind b) more) ++ sim SSemicolon :: print_expr e)
+      by reflexivity.
+    assert (Hbl : forall b, In b (b0 :: more) -> (List.length (print_bind b) + 2 <= Lb)%nat).
+    { intros b Hin. pose proof (sep_by_len print_bind (b0 :: more) b Hin) as Hle. unfold Lb. rewrite Eprint.
+      unfold sep_by in Hle. cbn [List.length]. repeat (rewrite app_length; cbn [List.length]).
+      rewrite app_length in Hle. lia. }
+    assert (Hall : Forall (fun b => bind_ok Lb b /\ (List.length (print_bind b) <= S lf)%nat) (b0 :: more)).
+    { apply Forall_forall. intros b Hin. rewrite forallb_forall in Hcbs, Hwbs. specialize (Hbl b Hin).
+      split; [|lia]. split; [apply (Hcbs b Hin)|]. split; [apply (Hwbs b Hin)|lia]. }
+    inversion Hall as [|? ? (Hok0 & Hl0) Hall']; subst.
+    rewrite Eprint. change (strip_spans (ELocal sp (b0 :: more) e))
+      with (ELocal sp0 (strip_bind b0 :: map strip_bind more) (strip_spans e)) in H.
+    norm_app. cbn [Nat.add].
+    apply pl_unary_miss; [reflexivity|]. apply pl_primary_local; [auto with rt|].
+    destruct (binds_head more (sim SSemicolon) (print_expr e ++ fo :: r) eq_refl eq_refl) as (t0 & r0 & E0 & Hs0 & He0).
+    rewrite E0.
+    eapply run_bind; [apply (run_bind_ pexpr Lb Hp (S lf) b0 t0 r0 Hok0 Hl0 Hs0 He0)|].
+    rewrite <- E0.
+    eapply run_bind.
+    { apply (run_binds_loop pexpr Lb Hp (S lf) more [strip_bind b0] (S lf)); [|exact Hall'|reflexivity|reflexivity|reflexivity].
+      pose proof (flat_len print_bind more). unfold Lb in Hlf. rewrite Eprint in Hlf. revert Hlf.
+      cbn [List.length]. repeat (rewrite app_length; cbn [List.length]). lia. }
+    cbn [app].
+    eapply run_bind; [apply run_expect_hit; [reflexivity|auto with rt]|].
+    eapply run_bind; [apply Hp; [exact Hcb|exact Hwb| |exact Hs|exact Hel]|].
+    { unfold Lb. rewrite Eprint. cbn [List.length]. repeat (rewrite app_length; cbn [List.length]). lia. }
+    rewrite strip_span0. eapply run_bind; [apply run_mk_span0|].
+    apply pl_parsed_suffix_none; [exact Hn|exact H].
   - (* EIf *)
     cbn [esize] in Hsz.
     assert (Hlast : last = true) by (cbn [wpx] in Hwp; destruct e3, last; cbn in Hwp; congruence).
@@ -1021,6 +1245,38 @@ Proof.
     change (exit_ 10 (strip_spans e)) with (StParsed (strip_spans e)). cbn [Nat.add].
     apply pl_parsed_unary; [apply strip_span0|].
     apply finish; [exact Hk|exact Ho|exact H].
+  - (* EFunc *)
+    cbn [esize] in Hsz.
+    assert (Hlast : last = true) by (cbn [wpx] in Hwp; destruct last; cbn in Hwp; congruence).
+    subst last. cbn [wpx andb] in Hwp.
+    apply andb_true_iff in Hwp as [Hwps Hwb]. apply andb_true_iff in Hcore as [Hcps Hcb].
+    exists ((10 - k) + 3 + steps_fin k)%nat. split; [len_tac|].
+    apply wrap; [exact Hk|].
+    intros pexpr lf f stk fo r v tf Hp Hlf Hn Hs Hel H.
+    specialize (Hs eq_refl).
+    set (Lb := List.length (print_expr (EFunc sp params e))) in *.
+    assert (Eprint : print_expr (EFunc sp params e) =
+              sim KFunction :: sim SLeftParen :: sep_by comma print_param params ++ sim SRightParen :: print_expr e)
+      by reflexivity.
+    assert (Hall : Forall (param_ok Lb) params).
+    { apply Forall_forall. intros p0 Hin. rewrite forallb_forall in Hcps, Hwps.
+      split; [apply (Hcps p0 Hin)|]. split; [apply (Hwps p0 Hin)|].
+      pose proof (sep_by_len print_param params p0 Hin). unfold Lb. rewrite Eprint.
+      cbn [List.length]. repeat (rewrite app_length; cbn [List.length]). lia. }
+    assert (Hcnt : (List.length params <= S lf)%nat).
+    { assert (List.length params <= List.length (sep_by comma print_param params))%nat.
+      { apply sep_by_count. intros [nm dd] _. cbn [print_param]. discriminate. }
+      unfold Lb in Hlf. rewrite Eprint in Hlf. revert Hlf. cbn [List.length]. repeat (rewrite app_length; cbn [List.length]). lia. }
+    rewrite Eprint. change (strip_spans (EFunc sp params e)) with (EFunc sp0 (map strip_param params) (strip_spans e)) in H.
+    norm_app. cbn [Nat.add].
+    apply pl_unary_miss; [reflexivity|]. apply pl_primary_function; [discriminate|].
+    eapply run_bind; [apply run_expect_hit; [reflexivity|auto with rt]|].
+    eapply run_bind; [apply (run_params pexpr Lb Hp (S lf) params); [exact Hcnt|exact Hall|auto with rt]|].
+    cbv beta iota.
+    eapply run_bind; [apply Hp; [exact Hcb|exact Hwb| |exact Hs|exact Hel]|].
+    { unfold Lb. rewrite Eprint. cbn [List.length]. repeat (rewrite app_length; cbn [List.length]). lia. }
+    rewrite strip_span0. eapply run_bind; [apply run_mk_span0|].
+    apply pl_parsed_suffix_none; [exact Hn|exact H].
   - (* EAssert *)
     cbn [esize assert_size] in Hsz. destruct a as [asp ac am].
     assert (Hlast : last = true) by (cbn [wpx] in Hwp; destruct last; cbn in Hwp; congruence).
